@@ -2,8 +2,10 @@
 slice) attached to its own descriptors (identity-encoding measurements, DESIGN 1.5 / C11)."""
 from hypothesis import strategies as st
 
-from vf import gen, ident_data as idd
-from vf.core import SubCheck
+import numpy as np
+
+from vf import core, gen, ident_data as idd
+from vf.core import SubCheck, lib, require
 
 RULE = ("Hypothesis generates a Dataset or TemporalDataset spec (n_obs 1-6 or 17-40, 1-4 channels, "
         "1-4 time points, every combination of size-1 dimensions; obs/channel/time descriptors as "
@@ -20,7 +22,9 @@ RULE = ("Hypothesis generates a Dataset or TemporalDataset spec (n_obs 1-6 or 17
         "to its row, column and slice (bin means: mean over exactly the members). A case is "
         "non-trivial if at least two executed operations of different kinds, or an executed "
         "operation on an object with a size-1 dimension, or a sort with duplicate keys and more "
-        "than 16 rows; distinct by SHA1 of the case.")
+        "than 16 rows; distinct by SHA1 of the case. Separate sub-check: 3-12 rows with a float "
+        "descriptor holding 1-3 labels and >= 1 NaN (unlabelled rows), split_obs / odd_even_split: "
+        "partition of the rows only (non-trivial: >= 2 NaN rows next to labelled ones).")
 
 ASSUMPTIONS = [
     "order is asserted only where documented or relied on by in-tree tests: subsets keep original "
@@ -173,6 +177,89 @@ def classify_history(case):
     return labels, bool(nt)
 
 
+# ---------------------------------------------------------------------------------------
+# observations without a label: NaN in a float-valued observation descriptor (a response code read
+# from a table).  Only what the property states is asserted: the parts of a split are a partition
+# of the rows (every row in exactly one part, with its own measurements and descriptor values) and
+# each part of split_obs is homogeneous in the split descriptor (NaN counts as equal to NaN).
+
+@st.composite
+def unlabelled_case(draw):
+    n = draw(st.integers(3, 12))
+    n_lab = draw(st.integers(1, 3))
+    labs = draw(st.lists(st.sampled_from([1.0, 2.0, 3.0, -0.5, 10.0, 0.0]), min_size=n_lab,
+                         max_size=n_lab, unique=True))
+    resp = [draw(st.sampled_from(labs + [float('nan')])) for _ in range(n)]
+    resp[draw(st.integers(0, n - 1))] = float('nan')
+    nonnan = draw(st.integers(0, n - 1))
+    if resp[nonnan] != resp[nonnan] and sum(1 for r in resp if r != r) > 1:
+        resp[nonnan] = labs[0]
+    return dict(kind=draw(st.sampled_from(['ds', 'tds'])), n=n, n_ch=draw(st.integers(1, 3)),
+                n_t=draw(st.integers(1, 3)), resp=resp, container=draw(gen.container),
+                sess=[draw(st.integers(0, 1)) for _ in range(n)],
+                oids=[3 + i for i in draw(gen.permutation(n))], op=draw(st.sampled_from(
+                    ['split_obs', 'split_obs', 'odd_even'])))
+
+
+def check_unlabelled(case):
+    from rsatoolbox.data.dataset import Dataset, TemporalDataset
+    n, n_ch, n_t = case['n'], case['n_ch'], case['n_t']
+    oids = np.array(case['oids'])
+    resp = [float(r) for r in case['resp']]
+    cont = (lambda v: np.array(v)) if case['container'] == 'array' else list
+    obs = {'resp': cont(resp), 'sess': cont(list(case['sess'])), '_oid': oids.copy()}
+    if case['kind'] == 'ds':
+        meas = oids[:, None] * 100.0 + np.arange(n_ch)[None, :]
+        ds = Dataset(meas.copy(), obs_descriptors=obs)
+    else:
+        meas = oids[:, None, None] * 100.0 + np.arange(n_ch)[None, :, None] * 10.0 + \
+            np.arange(n_t)[None, None, :]
+        ds = TemporalDataset(meas.copy(), obs_descriptors=obs,
+                             time_descriptors={'time': np.arange(n_t, dtype=float)})
+    own = {int(o): (resp[i], case['sess'][i], meas[i]) for i, o in enumerate(oids)}
+    what = '%s with %d unlabelled (NaN) of %d rows, %s' % (
+        type(ds).__name__, sum(1 for r in resp if r != r), n, case['op'])
+    sig = 'unlabelled:' + case['op']
+    if case['op'] == 'split_obs':
+        parts = lib(ds.split_obs, 'resp', on_error='violation', sig=sig + ':raises')
+    else:
+        groups = idd.groups_first_appearance(['nan' if r != r else r for r in resp])
+        if len(groups) < 2:
+            raise core.Reject('a single group: one half would be empty', 'degenerate:one-group')
+        parts = list(lib(ds.odd_even_split, 'resp', on_error='violation', sig=sig + ':raises'))
+    seen = []
+    for k, part in enumerate(parts):
+        ids = [int(v) for v in part.obs_descriptors['_oid']]
+        require(len(ids) == part.measurements.shape[0], '%s: part %d has %d ids, %d rows' % (
+            what, k, len(ids), part.measurements.shape[0]), sig + ':shape')
+        for j, o in enumerate(ids):
+            r, s_, m = own[o]
+            require(idd.same(part.obs_descriptors['resp'][j], r) and
+                    idd.same(part.obs_descriptors['sess'][j], s_),
+                    '%s: part %d row %d (id %d) carries resp=%r sess=%r, created with %r, %r' % (
+                        what, k, j, o, part.obs_descriptors['resp'][j], part.obs_descriptors['sess'][j],
+                        r, s_), sig + ':descriptors')
+            require(np.array_equal(part.measurements[j], m), '%s: part %d row %d (id %d) holds the '
+                    'measurements of another row' % (what, k, j, o), sig + ':measurements')
+        if case['op'] == 'split_obs' and ids:
+            first = own[ids[0]][0]
+            require(all(idd.same(own[o][0], first) for o in ids), '%s: part %d mixes labels %s' % (
+                what, k, [own[o][0] for o in ids]), sig + ':mixed-part')
+        seen += ids
+    require(sorted(seen) == sorted(int(o) for o in oids), '%s: the parts hold rows %s, the dataset '
+            'rows %s (missing %s, repeated %s)' % (
+                what, sorted(seen), sorted(int(o) for o in oids),
+                sorted(set(int(o) for o in oids) - set(seen)),
+                sorted({o for o in seen if seen.count(o) > 1})), sig + ':not-a-partition')
+
+
+def classify_unlabelled(case):
+    k = sum(1 for r in case['resp'] if r != r)
+    labels = ['kind:' + case['kind'], 'op:' + case['op'], 'nan-rows:%d' % min(k, 3),
+              'resp:' + case['container'], 'all-nan' if k == case['n'] else 'mixed']
+    return labels, k >= 2 and k < case['n']
+
+
 SUBCHECKS = [
     SubCheck('history_ds', history_case('ds'), check_history, classify_history, quick=400,
              doc='random histories over the listed operations starting from a Dataset; '
@@ -185,4 +272,7 @@ SUBCHECKS = [
     SubCheck('size1', size1_case(), check_history, classify_history, quick=200,
              doc='temporal datasets with a single observation, channel or time point through '
                  'time_as_observations / time_as_channels and follow-up operations'),
+    SubCheck('unlabelled', unlabelled_case(), check_unlabelled, classify_unlabelled, quick=200,
+             doc='split_obs / odd_even_split over a float descriptor with NaN (unlabelled rows): '
+                 'the parts are a partition of the rows, each row keeps its values'),
 ]
